@@ -47,4 +47,50 @@ theorem model_uses_generated_lcg (r : Rng) (h : r.kind = .fast) :
   simp only [Rng.next, h]
   rfl
 
+/-! ## Tempering is XOR-linear (so its images of the basis words `1 <<< i` determine it: every word is the XOR of its bits) -/
+theorem bv_and_xor {w : Nat} (a b m : BitVec w) : (a ^^^ b) &&& m = (a &&& m) ^^^ (b &&& m) := by
+  ext i hi
+  simp only [BitVec.getElem_and, BitVec.getElem_xor]
+  cases a[i] <;> cases b[i] <;> cases m[i] <;> rfl
+theorem and_xor32 (a b m : UInt32) : (a ^^^ b) &&& m = (a &&& m) ^^^ (b &&& m) := by
+  apply UInt32.eq_of_toBitVec_eq
+  simp [bv_and_xor]
+theorem and_xor64 (a b m : UInt64) : (a ^^^ b) &&& m = (a &&& m) ^^^ (b &&& m) := by
+  apply UInt64.eq_of_toBitVec_eq
+  simp [bv_and_xor]
+theorem xor4_32 (a b c d : UInt32) : (a ^^^ b) ^^^ (c ^^^ d) = (a ^^^ c) ^^^ (b ^^^ d) := by ac_rfl
+theorem xor4_64 (a b c d : UInt64) : (a ^^^ b) ^^^ (c ^^^ d) = (a ^^^ c) ^^^ (b ^^^ d) := by ac_rfl
+
+/-- a tempering stage `x ↦ x ^ ((x >> k) & m)` / `x ↦ x ^ ((x << k) & m)` is XOR-linear -/
+def stR32 (k m : UInt32) (x : UInt32) : UInt32 := x ^^^ ((x >>> k) &&& m)
+def stL32 (k m : UInt32) (x : UInt32) : UInt32 := x ^^^ ((x <<< k) &&& m)
+theorem stR32_xor (k m a b : UInt32) : stR32 k m (a ^^^ b) = stR32 k m a ^^^ stR32 k m b := by
+  simp only [stR32, UInt32.shiftRight_xor, and_xor32]; exact xor4_32 _ _ _ _
+theorem stL32_xor (k m a b : UInt32) : stL32 k m (a ^^^ b) = stL32 k m a ^^^ stL32 k m b := by
+  simp only [stL32, UInt32.shiftLeft_xor, and_xor32]; exact xor4_32 _ _ _ _
+theorem temper32_stages (x : UInt32) :
+    temper32 x = stR32 18 0xffffffff (stL32 15 0xefc60000 (stL32 7 0x9d2c5680 (stR32 11 0xffffffff x))) := by
+  have h : ∀ y : UInt32, y &&& 0xffffffff = y := by
+    intro y; apply UInt32.eq_of_toBitVec_eq; show y.toBitVec &&& BitVec.allOnes 32 = y.toBitVec; exact BitVec.and_allOnes
+  simp only [temper32, stR32, stL32, h]
+theorem temper32_xor (a b : UInt32) : temper32 (a ^^^ b) = temper32 a ^^^ temper32 b := by
+  simp only [temper32_stages, stR32_xor, stL32_xor]
+
+def stR64 (k m : UInt64) (x : UInt64) : UInt64 := x ^^^ ((x >>> k) &&& m)
+def stL64 (k m : UInt64) (x : UInt64) : UInt64 := x ^^^ ((x <<< k) &&& m)
+theorem stR64_xor (k m a b : UInt64) : stR64 k m (a ^^^ b) = stR64 k m a ^^^ stR64 k m b := by
+  simp only [stR64, UInt64.shiftRight_xor, and_xor64]; exact xor4_64 _ _ _ _
+theorem stL64_xor (k m a b : UInt64) : stL64 k m (a ^^^ b) = stL64 k m a ^^^ stL64 k m b := by
+  simp only [stL64, UInt64.shiftLeft_xor, and_xor64]; exact xor4_64 _ _ _ _
+theorem temper64_stages (x : UInt64) :
+    temper64 x = stR64 43 0xffffffffffffffff (stL64 37 0xFFF7EEE000000000 (stL64 17 0x71D67FFFEDA60000 (stR64 29 0x5555555555555555 x))) := by
+  have h : ∀ y : UInt64, y &&& 0xffffffffffffffff = y := by
+    intro y; apply UInt64.eq_of_toBitVec_eq; show y.toBitVec &&& BitVec.allOnes 64 = y.toBitVec; exact BitVec.and_allOnes
+  simp only [temper64, stR64, stL64, h]
+theorem temper64_xor (a b : UInt64) : temper64 (a ^^^ b) = temper64 a ^^^ temper64 b := by
+  simp only [temper64_stages, stR64_xor, stL64_xor]
+
+theorem temper32_zero : temper32 0 = 0 := by decide
+theorem temper64_zero : temper64 0 = 0 := by decide
+
 end EaselModel.Random
